@@ -314,10 +314,10 @@ def check_seq(case, rec):
         d0, sc0 = mk(spec, scheme)
         sd0, ss0 = snap_dataset(d0), snap_scheme(sc0)
         nontrivial = len(sd0["universe"]) >= 2
-        bad_prefix = set()
+        bad_prefix, bad_ops = set(), set()       # an operation that already fails alone is not blamed again in context
         for k in range(1, depth + 1):
             for seq in itertools.product(SEQ_OPS, repeat=k):
-                if seq[:-1] in bad_prefix:
+                if seq[:-1] in bad_prefix or any(op in bad_ops for op in seq):
                     bad_prefix.add(seq)
                     continue
                 d, sc = mk(spec, scheme)
@@ -328,12 +328,16 @@ def check_seq(case, rec):
                 site = seq[-1] if k == 1 else "%s after %s" % (seq[-1], seq[-2])
                 if res != fresh[seq[-1]]:
                     bad_prefix.add(seq)
+                    if k == 1:
+                        bad_ops.add(seq[0])
                     rec.add("C15.prop.seq", site, dict(ctx, sequence=list(seq), shared=str(res)[:500],
                                                         fresh=str(fresh[seq[-1]])[:500]))
                     continue
                 dd, ds_ = diff(sd0, snap_dataset(d)), diff(ss0, snap_scheme(sc))
                 if dd or ds_:
                     bad_prefix.add(seq)
+                    if k == 1:
+                        bad_ops.add(seq[0])
                     rec.add("C15.prop.seq", site, dict(ctx, sequence=list(seq), dataset_changed=dd, scheme_changed=ds_))
                     continue
                 if nontrivial and k > 1:
